@@ -52,11 +52,8 @@ def alloc_step(versions, N):
             for k in pre:
                 w.check(w.ne(p, k), "handed-out id equals a known node id")
             post = list(g.gw.sensors.keys())
-            w.check(len(post) == len(pre) + 1 and w.truth(w.eq(post[-1], p)) is True
-                    if not w.symbolic else len(post) == len(pre) + 1,
-                    "handed-out id not recorded as a known node")
-            if w.symbolic:
-                w.check(w.eq(post[-1], p), "handed-out id not recorded as a known node")
+            w.check(len(post) == len(pre) + 1, "handed-out id not recorded as a known node")
+            w.check(w.eq(post[-1], p), "handed-out id not recorded as a known node")
     return fn
 
 
@@ -90,8 +87,7 @@ def restart(versions, fmts, N):
             fs.after_crash(False)
             g2 = P.pgateway(w, version, fmt)
             try:
-                w.call(g2.gw.start_persistence_noschedule) if False else \
-                    w.call(g2.gw.tasks.persistence.safe_load_sensors)
+                w.call(g2.gw.tasks.persistence.safe_load_sensors)
                 C.step_line(w, g2, id_request(w, version))
             except Exception as exc:
                 w.escaped(exc, "second run raised")
